@@ -45,10 +45,16 @@ CLAIMED['C02'] = dict(
          'value in the destination limbs (carry/borrow detection by comparisons, comparison chains over limbs, mask rules '
          'of _makemask incl. the unmasked natural-width top limb); compiled_mul_eq_spec_partial: schoolbook multiplication '
          'on limbs (mul128 partial products, both carry detections per cell, row carry stored or provably zero) is exact at '
-         'the natural destination width len(a)+len(b). PARTIAL: * into a narrower raw destination and select are modelled, '
-         'tied to the text and executed against the documented value but have no general theorem; concat is not modelled; '
-         'FastSimulation\'s step loop, hash-map memories, input/output packing, gcc and the mul128 macro are covered by '
-         'correspondence against the Spec model only (widths across every 64-bit limb boundary).',
+         'the natural destination width len(a)+len(b); compiled_select_eq_spec (every index tuple, any limbs); '
+         'compiled_concat_eq_spec_partial: the piece-packing state machine of _build_concat (pieces of at most one limb, '
+         'continued across limb boundaries) yields the documented concatenation at the natural width. PARTIAL: * and concat '
+         'into a narrower raw destination are tied to the text and executed against the documented value but have no general '
+         'theorem; memory reads are not modelled; '
+         'the C hash-map memories, input/output packing, gcc and the mul128 macro are covered by correspondence against '
+         'the Spec model only (widths across every 64-bit limb boundary). FastSimulation run level: fastsim_step_eq_spec / '
+         'fastsim_run_eq_spec - FastSim.step (the step skeleton Simulation also has, over FastSimulation\'s per-net '
+         'expressions) started from corresponding states traces, for any number of cycles, the documented value on every '
+         'meaningful wire; the step model is executed against the real FastSimulation on every run.',
     design='4 C02',
     note=NOTE_COMMON + 'Modelled, not verified: gcc/ctypes/malloc, the inline-asm mul128, exec() of the generated Python; tools/vlib/cparse.py (parser of the C fragment) is part of the tie.',
     technique='Lean 4 proof over translator-regenerated emitter + differential correspondence with the Spec model')
